@@ -74,6 +74,7 @@ class Outcome:
         self.tlc_runs = []
         self.exhaustive = None
         self.nontrivial = set()
+        self.only_signature = None     # replay mode: only this signature counts, evidence goes to a scratch directory
 
     # -- accumulation -----------------------------------------------------
     def add_tlc(self, res, label, exhaustive=None):
@@ -102,7 +103,13 @@ class Outcome:
 
     # -- reporting --------------------------------------------------------
     def finish(self):
-        os.makedirs(EVIDENCE_DIR, exist_ok=True)
+        evidence_dir = EVIDENCE_DIR if self.only_signature is None else os.path.join(WORK_ROOT, "replay_evidence")
+        os.makedirs(evidence_dir, exist_ok=True)
+        if self.only_signature is not None:
+            other = sorted({s for s, _d in self.violations if s != self.only_signature})
+            if other:
+                print(f"(replay: {len(other)} other signature(s) seen in the same run are not part of this replay: {other[:5]})")
+            self.violations = [(s, d) for s, d in self.violations if s == self.only_signature]
         known, _fixed = load_known_findings()
         for sig, n in sorted(self.known_hits.items()):
             desc = next((k.get("description", "") for k in known
@@ -118,7 +125,8 @@ class Outcome:
             h = hashlib.sha1((self.prop + sig).encode()).hexdigest()[:10]
             path = os.path.join(vio_dir, f"{self.prop}-{h}.json")
             with open(path, "w") as f:
-                json.dump({"property": self.prop, "signature": sig, "detail": detail}, f, indent=1, default=str)
+                json.dump({"property": self.prop, "signature": sig, "tier": self.tier, "seed": self.seed, "detail": detail},
+                          f, indent=1, default=str)
             print(f"VIOLATION property={self.prop} replay={path}")
             print(f"  signature: {sig}")
         coverage = {
@@ -140,7 +148,7 @@ class Outcome:
             "violations": len(seen),
             "known_findings_hit": sorted(self.known_hits),
         }
-        with open(os.path.join(EVIDENCE_DIR, f"{self.prop}.json"), "w") as f:
+        with open(os.path.join(evidence_dir, f"{self.prop}.json"), "w") as f:
             json.dump(ev, f, indent=1, default=str)
         n = len(seen)
         print(f"[{self.prop}] tier={self.tier} states={self.states} transitions={self.transitions} "
